@@ -76,8 +76,9 @@ def make_case(seed, facts, index=0):
     mode = rng.choice(["clean", "clean", "input_fault", "input_fault", "io_fault", "io_fault", "io_fault", "crash_history", "crash_history"])
     base["mode"] = mode
     if mode == "input_fault":
-        allf = faults.enumerate_faults(base["world"], base["opts"], facts)
-        base["fault"] = rng.choice(allf)
+        from .c12 import _choose_faults  # pylint: disable=import-outside-toplevel
+
+        base["fault"] = _choose_faults(rng, base["world"], base["opts"], facts, 1)[0][0]  # class-balanced, as in C12
     elif mode == "io_fault":
         f = dict(rng.choice(IO_FAULTS))
         if "after_bytes" in f and rng.random() < 0.5:
